@@ -23,7 +23,7 @@ pub struct Built {
 
 fn hostile_world(rng: &mut Rng) -> (World, &'static str) {
     let mut w = World::default();
-    let which = rng.usize(18);
+    let which = rng.usize(20);
     let label: &'static str;
     let text: String = match which {
         0 => {
@@ -205,6 +205,38 @@ fn hostile_world(rng: &mut Rng) -> (World, &'static str) {
             w.symlinks.insert(link.to_string(), target.to_string());
             "pragma circom 2.0.0;\ntemplate T() { signal input a; }\n".to_string()
         }
+        17 => {
+            label = "token-soup";
+            // a random sequence over the language's vocabulary: almost never grammatical, but
+            // every prefix the parser accepts reaches the actions behind it
+            let vocab = [
+                "pragma circom", "2.0.0", ";", "include", "\"a.circom\"", "template", "function", "custom", "parallel", "component", "main", "public",
+                "signal", "input", "output", "var", "if", "else", "for", "while", "return", "assert", "log", "(", ")", "{", "}", "[", "]", ",", ".",
+                "=", "<==", "==>", "<--", "-->", "===", "+", "-", "*", "/", "\\", "%", "**", "<<", ">>", "&", "|", "^", "~", "!", "&&", "||", "==",
+                "!=", "<", ">", "<=", ">=", "?", ":", "++", "--", "+=", "-=", "*=", "**=", "<<=", "_", "x", "y", "T", "f", "in", "out", "0", "1",
+                "255", "0x10", "0x", "21888242871839275222246405745257275088548364400416034343698204186575808495617", "/*", "*/", "//", "\n",
+            ];
+            let n = 5 + rng.usize(400);
+            let mut s = String::new();
+            if rng.chance(1, 2) {
+                s.push_str("pragma circom 2.0.0;\ntemplate T() {\n");
+            }
+            for _ in 0..n {
+                s.push_str(vocab[rng.usize(vocab.len())]);
+                s.push(' ');
+            }
+            if rng.chance(1, 2) {
+                s.push_str("\n}\n");
+            }
+            s
+        }
+        18 => {
+            label = "random-bytes";
+            let n = rng.usize(600);
+            let bytes: Vec<u8> = (0..n).map(|_| if rng.chance(3, 4) { b" \n;{}()[]=<>+-*/abcxyz0123456789\"_.,"[rng.usize(36)] } else { rng.below(256) as u8 }).collect();
+            w.put_bytes("main.circom", &bytes);
+            return (w, label);
+        }
         _ => {
             label = "include-oddities";
             let inc = *rng.pick(&["", ".", "..", "/", "main.circom", "./main.circom", "nonexistent.circom", "a\nb", "\\", "//", "/dev/null", "/etc/hostname"]);
@@ -239,7 +271,7 @@ pub fn build_case(seed: u64, i: usize, thorough: bool) -> Built {
         // in every position an expression can be written in
         knobs.odd_permille = *r_proj.pick(&[0, 0, 0, 15, 60]);
         knobs.odd_names = r_proj.chance(1, 3);
-        let shape = ProjectShape { max_files: 3, max_defs: if thorough { 6 } else { 5 }, with_main: true, pragma_always: false };
+        let shape = ProjectShape { max_files: 3, max_defs: if thorough { 6 } else { 5 }, with_main: true, pragma_always: false, name_suffix: String::new() };
         let p = gen::gen_project(&mut r_proj, &knobs, &shape);
         let mut style = Style::random(&mut r_style);
         style.hostile_comments = r_style.chance(1, 6);
